@@ -103,7 +103,7 @@ func Load(repoDir, pkgPath string, harness map[string]string, workDir string) (*
 	}
 	env := append(os.Environ(), "GOFLAGS=-mod=mod", "GOPROXY=off", "GOSUMDB=off", "GOTOOLCHAIN=local", "GOWORK=off")
 	cfg := &packages.Config{
-		Mode:       packages.LoadAllSyntax,
+		Mode:       packages.LoadAllSyntax | packages.NeedModule,
 		Dir:        repoDir,
 		BuildFlags: []string{"-tags=verif", "-modfile=" + filepath.Join(workDir, "go.mod")},
 		Overlay:    overlay,
